@@ -6,8 +6,9 @@
      vread   = strtod on a token that is ENTIRELY a decimal floating literal; on any other
                token the oracle refuses (exception Unclean -> the model answers "NA" and the
                check falls back to the implementation-side oracles for that file).
-   Flags: C19_FLAGS = "<mm_index><mm_trailing><mm_range><bin_checked>" (each 0/1), default 0000
-   = the code as it is. *)
+   Flags: C19_FLAGS = "<mm_index><mm_trailing><mm_range><bin_checked>" (each 0/1), default 1111
+   = the readers as they are (MMFormat.mm_checked / BinFormat.read_crs true); 0000 = the readers
+   before the fix: commits (historical). *)
 open Io
 module M = MMFormat
 module B = BinFormat
@@ -18,8 +19,8 @@ let zs = Big_int_Z.string_of_big_int
 let sz = Big_int_Z.big_int_of_string
 
 let flags =
-  let s = try Sys.getenv "C19_FLAGS" with Not_found -> "0000" in
-  let s = if String.length s < 4 then "0000" else s in
+  let s = try Sys.getenv "C19_FLAGS" with Not_found -> "1111" in
+  let s = if String.length s < 4 then "1111" else s in
   s
 let mm_flags = { M.chk_index = flags.[0] = '1'; M.chk_trailing = flags.[1] = '1'; M.chk_range = flags.[2] = '1' }
 let bin_checked = flags.[3] = '1'
